@@ -25,6 +25,7 @@ func init() {
 			ruleOpMargin(c, r, "")
 			ruleRawCopy(c, r, "")
 			ruleEncAvail(c, r, "")
+			ruleWriter2Split(c, r, "")
 			ruleFlushFailStop(c, r, "")
 			ruleLoopAdvanceExact(c, r, "")
 			ruleMatcherGuard(c, r, "", false)
